@@ -1,0 +1,11 @@
+//go:build verif
+
+package nebula
+
+import "github.com/slackhq/nebula/firewall"
+
+// VerifCoalesceNewPacket exposes newPacket, the parser whose result (Protocol, FragAny, IPHdrLen)
+// decryptToTun hands to batch.MultiCoalescer.Commit.
+func VerifCoalesceNewPacket(data []byte, incoming bool, fp *firewall.ParsedPacket) error {
+	return newPacket(data, incoming, fp)
+}
